@@ -4,7 +4,7 @@
    hook-exported key sets of the two decoder tables). *)
 From V.lib Require Import Base.
 From V.c04 Require Import C04Model C04AsmModel C04ContainerProofs.
-From V.c03 Require Import C03Model C03Spec C03Registry C03Proofs C03CanonProofs C03LeafModel C03LeafProofs C03LeafBoxProofs C03LeafInstProofs C03StsdProofs C03VseProofs C03LeafTruncProofs C03LeafEncProofs C03DelegateProofs C03DelegateExtProofs C03FactsDefs C03Facts C03ClassProofs C03SencPassModel C03SencPassProofs C03EncHistModel C03EncHistProofs C03BodyFnProofs C03PfxModel C03PfxProofs C03PfxInstProofs C03XEntryProofs.
+From V.c03 Require Import C03Model C03Spec C03Registry C03Proofs C03CanonProofs C03LeafModel C03LeafProofs C03LeafBoxProofs C03LeafInstProofs C03StsdProofs C03VseProofs C03LeafTruncProofs C03LeafEncProofs C03DelegateProofs C03DelegateExtProofs C03FactsDefs C03Facts C03ClassProofs C03SencPassModel C03SencPassProofs C03EncHistModel C03EncHistProofs C03BodyFnProofs C03PfxModel C03PfxProofs C03PfxInstProofs C03XEntryProofs C03MetaModel C03MetaProofs.
 From V.c02 Require C02AggModel C02AggExamples C02AggFragProofs C02AggFileProofs C02AggSencModel C02AggSencProofs.
 Open Scope N_scope.
 
@@ -322,8 +322,8 @@ Print Assumptions C03_sprog_embeds.
    run) has a pair that is
      - delegating (shape checked by the extractor) with a position-relative SR decoder: C03_delegating_pair_agree applies; or
        delegating and named: DecodeVisualSampleEntry (C03_vse_pair_agree_canonical), DecodeTrep, DecodeWvtt (their pair theorems
-       below), DecodeEvte, DecodeStpp (C03_xentry_pairs_agree_canonical) / the explored list
-       c03_delegating_nonrelative_explored = esds meta sgpd;
+       below), DecodeEvte, DecodeStpp (C03_xentry_pairs_agree_canonical), DecodeMeta (C03_meta_pair_agree_canonical) / the explored list
+       c03_delegating_nonrelative_explored = esds sgpd;
      - a container twin (same text around DecodeContainerChildren / ...SR; KCont of C03_decode_agree_canonical), also when its SR
        decoder returns sr.AccError() instead of nil (edts sinf stbl: C03_twin_accerr_canonical);
      - moov / moof: the reader path reads the body and runs the text of the SR decoder on it, KContBody with the extracted flag;
@@ -597,6 +597,32 @@ Theorem C03_xentry_pairs_agree_canonical :
 Proof. exact (conj evte_pair_agree_canonical (conj stpp_pair_agree_canonical (fun plen => conj (evte_prog_local plen) (stpp_prog_local plen)))). Qed.
 Print Assumptions C03_xentry_pairs_agree_canonical.
 
+(* meta (DecodeMeta: readBoxBody + private reader / DecodeMetaSR: `sr.LookAhead(4, 4 bytes)` when the payload has 8 bytes or more; "hdlr" there means
+   a QuickTime atom - children at once -, anything else the ISO form - version/flags word, then children).  ISO: canonical children whose first
+   four bytes (the size field of the first child) do not spell "hdlr"; QuickTime: canonical children, the first one named hdlr.  In both
+   forms, wherever the box sits and whatever follows, LookAhead sees the same bytes on both readers and both decoders accept with the same
+   value; Size() = 8 + len payload *)
+Theorem C03_meta_pair_agree_canonical : forall ld, leaf_ok ld -> forall nm kids, Forall (cwf ld) kids ->
+  (forall vf, (vf < 4294967296)%N -> (lenN (be4 vf ++ cencs kids) < 4294967288)%N ->
+     eqb_name (firstn 4 (cencs kids)) name_hdlr = false ->
+     forall pre post cst cst2 fuel,
+     (zlen (pre ++ (be4 vf ++ cencs kids) ++ post) < two63)%Z -> (zlen (pre ++ (be4 vf ++ cencs kids) ++ post) - zlen pre < Z.of_nat fuel)%Z ->
+     let v := mkMeta false (vf / 16777216) (N.land vf flags_mask) (map erase kids) in
+     let h := mkH nm (8 + lenN (be4 vf ++ cencs kids)) 8 in
+     fst (meta_sr ld fuel h 0 (mkS (mkR (pre ++ (be4 vf ++ cencs kids) ++ post) (zlen pre) false) cst)) = Ok v /\
+     fst (meta_r ld fuel h 0 (mkI (pre ++ (be4 vf ++ cencs kids) ++ post) (lenN pre) cst2)) = Ok v /\
+     meta_size v = (8 + lenN (be4 vf ++ cencs kids))%N) /\
+  ((lenN (cencs kids) < 4294967288)%N -> eqb_name (firstn 4 (skipn 4 (cencs kids))) name_hdlr = true ->
+     forall pre post cst cst2 fuel,
+     (zlen (pre ++ cencs kids ++ post) < two63)%Z -> (zlen (pre ++ cencs kids ++ post) - zlen pre + 1 < Z.of_nat fuel)%Z ->
+     let v := mkMeta true 0 0 (map erase kids) in
+     let h := mkH nm (8 + lenN (cencs kids)) 8 in
+     fst (meta_sr ld fuel h 0 (mkS (mkR (pre ++ cencs kids ++ post) (zlen pre) false) cst)) = Ok v /\
+     fst (meta_r ld fuel h 0 (mkI (pre ++ cencs kids ++ post) (lenN pre) cst2)) = Ok v /\
+     meta_size v = (8 + lenN (cencs kids))%N).
+Proof. exact meta_pair_agree_canonical. Qed.
+Print Assumptions C03_meta_pair_agree_canonical.
+
 (* the encoder pairs DrefBox, TrepBox, WvttBox, AudioSampleEntryBox: header, fixed bytes, every child - Encode = EncodeSW given children
    that agree, and the box is then an agreeing leaf of C03_box_encode_agree / C03_encode_agree *)
 Theorem C03_pfx_enc_agree : forall nm size fixed kids, agree_list kids = true ->
@@ -804,4 +830,9 @@ Example ex_stpp_prefix :
 Proof. vm_compute. reflexivity. Qed.
 Example ex_stpp_box : pfxbox_sr (be4 31 ++ name_stpp ++ ex_stpp_fx ++ cenc (CLeaf name_free [5]%N))
   = Ok (PStpp (mkStpp 1 [110;115]%N [97]%N [] 0, [Leaf name_free 9]), 31%Z, false).
+Proof. vm_compute. reflexivity. Qed.
+
+(* a QuickTime meta atom: the payload starts with a box named hdlr (here an opaque canonical leaf of that name) *)
+Example ex_meta_qt : metabox_sr (be4 21 ++ name_meta ++ cenc (CLeaf name_hdlr [1;2;3;4;5]%N))
+  = Ok (mkMeta true 0 0 [Leaf name_hdlr 13], 21%Z, false).
 Proof. vm_compute. reflexivity. Qed.
